@@ -76,13 +76,13 @@ Print Assumptions C10_run_only_verified_in_order.
 (* Any stack (in particular the follow stack, which has no appendStore), any request (plain sync
    or re-sync): whatever is written verified, and the raw store changes by exactly the logged
    writes ([stored_of]: as received on the re-sync path, prev cleared on unchained schemes
-   otherwise). *)
+   otherwise; [apply_write]: a Put through the stack, Del + Put on the re-sync path). *)
 Theorem C10_only_verified_any_stack :
   forall vfy chained bk sk (ps : list peer) (order : list nat) from upTo st,
   let o := sync vfy chained bk sk order from upTo st ps in
   Forall (fun b => vfy b = true) (sy_ws o) /\
   s_base (sy_st o) =
-    fold_left (raw_put bk) (map (stored_of chained (0 <? from)) (sy_ws o)) (s_base st).
+    fold_left (apply_write bk (0 <? from)) (map (stored_of chained (0 <? from)) (sy_ws o)) (s_base st).
 Proof.
   intros vfy chained bk sk ps order from upTo st. unfold sync.
   pose proof (sync_loop_generic vfy chained bk sk from upTo (permute order ps) st) as [G1 [G2 _]].
@@ -90,17 +90,18 @@ Proof.
 Qed.
 Print Assumptions C10_only_verified_any_stack.
 
-(* ReSync and CorrectPastBeacons write (straight to the raw store) only verifying beacons *)
+(* ReSync and CorrectPastBeacons write (straight to the raw store, each write replacing what is
+   stored for that round) only verifying beacons *)
 Theorem C10_resync_only_verified :
   forall vfy chained bk sk st,
   (forall from to a1 a2, 0 < from ->
      let o := resync vfy chained bk sk from to st a1 a2 in
      Forall (fun b => vfy b = true) (sy_ws o) /\
-     s_base (sy_st o) = fold_left (raw_put bk) (sy_ws o) (s_base st)) /\
+     s_base (sy_st o) = fold_left (apply_write bk true) (sy_ws o) (s_base st)) /\
   (forall jobs, (forall j, In j jobs -> 0 < fst j) ->
      let o := correct_past vfy chained bk sk st jobs in
      Forall (fun b => vfy b = true) (co_ws o) /\
-     s_base (co_st o) = fold_left (raw_put bk) (co_ws o) (s_base st)).
+     s_base (co_st o) = fold_left (apply_write bk true) (co_ws o) (s_base st)).
 Proof.
   intros vfy chained bk sk st. split.
   - intros from to a1 a2 Hf.
@@ -278,10 +279,12 @@ Proof.
 Qed.
 Print Assumptions C10_correct_no_damage.
 
-(* Full strength: "repair restores every listed round when an honest peer is reached, on every
-   back-end". NOT true on memdb: its Put returns nil without storing when the round exists, so an
-   invalid-but-present beacon survives a "successful" repair. *)
-Definition C10_correct_exact_full : Prop :=
+(* On EVERY back-end (full statement; it was refuted on memdb while the re-sync path relied on
+   Put alone, which memdb ignores for a round it holds): with an honest peer reached through
+   non-stalling ones in the first attempt of every listed round, CorrectPastBeacons reports no
+   error and every listed round verifies afterwards. Together with C10_correct_no_damage:
+   exactly the listed rounds change. *)
+Theorem C10_correct_exact :
   forall vfy chained bk sk (chain : Z -> beacon),
   (forall r, b_round (chain r) = r) ->
   (forall r, 1 <= r -> vfy (chain r) = true) ->
@@ -289,39 +292,19 @@ Definition C10_correct_exact_full : Prop :=
   forall jobs st, s_base st <> [] -> (forall j, In j jobs -> job_ok chain j) ->
   let o := correct_past vfy chained bk sk st jobs in
   co_r o = CorrOk /\ forall j, In j jobs -> valid_at vfy (s_base (co_st o)) (fst j).
-
-Definition bad1 : beacon := mkB 1 [] [7].
-Theorem C10_correct_exact_refuted : ~ C10_correct_exact_full.
-Proof.
-  intro H. destruct (xinst_laws false) as [L1 [L2 [_ [_ [L5 _]]]]].
-  specialize (H (xvfy false) false BkKeep SkAppend (xchain false) L1 L2 L5
-                [(1, ([xhonest false 3], []))] (mkS [bad1; xchain false 0] bad1) ltac:(discriminate)).
-  assert (Hj : forall j, In j [(1, ([xhonest false 3], @nil peer))] -> job_ok (xchain false) j).
-  { intros j [<-|[]]. split; [simpl; lia|].
-    exists [], (xhonest false 3), []. split; [reflexivity|]. split; [constructor|].
-    repeat split. eexists. eexists. split; [reflexivity|discriminate]. }
-  destruct (H Hj) as [_ H2]. destruct (H2 _ (or_introl eq_refl)) as [b [Hb Hv]].
-  vm_compute in Hb. inversion Hb; subst. vm_compute in Hv. discriminate.
-Qed.
-Print Assumptions C10_correct_exact_refuted.
-
-(* carve-out spelled out ([repairable]): the back-end overwrites (bolt, postgres), or the listed
-   round is missing (or already valid). Then, with an honest peer reached through non-stalling
-   ones in the first attempt of every listed round: no error, and every listed round verifies
-   afterwards. Together with C10_correct_no_damage: exactly the listed rounds change. *)
-Theorem C10_correct_exact :
-  forall vfy chained bk sk (chain : Z -> beacon),
-  (forall r, b_round (chain r) = r) ->
-  (forall r, 1 <= r -> vfy (chain r) = true) ->
-  (forall b, vfy b = true -> b_sig b = b_sig (chain (b_round b))) ->
-  forall jobs st, s_base st <> [] ->
-  (forall j, In j jobs -> job_ok chain j /\ repairable vfy bk (s_base st) (fst j)) ->
-  let o := correct_past vfy chained bk sk st jobs in
-  co_r o = CorrOk /\ forall j, In j jobs -> valid_at vfy (s_base (co_st o)) (fst j).
 Proof.
   intros vfy chained bk sk chain L1 L2 L5. exact (correct_past_repairs vfy chained bk sk chain L1 L2 L5).
 Qed.
 Print Assumptions C10_correct_exact.
+
+(* regression witness, kept: memdb holding an invalid beacon for round 1, an honest peer; the
+   round verifies after the repair (it used to survive it) *)
+Definition bad1 : beacon := mkB 1 [] [7].
+Example C10_correct_memdb_witness :
+  let o := correct_past (xvfy false) false BkKeep SkAppend (mkS [bad1; xchain false 0] bad1)
+             [(1, ([xhonest false 3], []))] in
+  co_r o = CorrOk /\ raw_get (s_base (co_st o)) 1 = Some (xchain false 1).
+Proof. vm_compute. split; reflexivity. Qed.
 
 (* ---- 4. follow ---- *)
 
@@ -463,13 +446,13 @@ Example C10_nonvacuous_check_repair :
   check_past (xvfy false) 3 planted = Some [2] /\
   let jobs := [(2, ([closer; xhonest false 1], [])); (4, ([unreachable; xhonest false 1], []))] in
   let o := correct_past (xvfy false) false BkOverwrite SkAppend planted jobs in
-  (forall j, In j jobs -> job_ok (xchain false) j /\ repairable (xvfy false) BkOverwrite (s_base planted) (fst j)) /\
+  (forall j, In j jobs -> job_ok (xchain false) j) /\
   co_r o = CorrOk /\ check_past (xvfy false) 10 (co_st o) = Some [] /\
-  (* on memdb the missing round is restored, the invalid one is not *)
-  check_past (xvfy false) 10 (co_st (correct_past (xvfy false) false BkKeep SkAppend planted jobs)) = Some [4].
+  (* the same on memdb *)
+  check_past (xvfy false) 10 (co_st (correct_past (xvfy false) false BkKeep SkAppend planted jobs)) = Some [].
 Proof.
   split; [reflexivity|]. split; [reflexivity|]. cbv zeta. split.
-  { intros j [<-|[<-|[]]]; (split; [|left; reflexivity]); (split; [simpl; lia|]).
+  { intros j [<-|[<-|[]]]; (split; [simpl; lia|]).
     - exists [closer], (xhonest false 1), []. split; [reflexivity|]. split.
       + constructor; [|constructor]. right. intros f [H|H]; [discriminate|contradiction].
       + split; [reflexivity|]. split; [reflexivity|]. eexists; eexists; split; [reflexivity|discriminate].
